@@ -348,9 +348,13 @@ messageTypeSwitching:
 		err := m.SaveSession()
 		check(err)
 
+		// server rejected exactly one message: message.BadMsgID. only its sender has to repeat the request (with a new
+		// message id, under the new salt), all other requests are accepted by server and will be answered. waiter is
+		// forgotten here: it will never get an answer for this message id
 		m.mutex.Lock()
-		for _, k := range m.responseChannels.Keys() {
-			v, _ := m.responseChannels.Get(k)
+		if v, ok := m.responseChannels.Get(int(message.BadMsgID)); ok {
+			m.responseChannels.Delete(int(message.BadMsgID))
+			m.expectedTypes.Delete(int(message.BadMsgID))
 			v <- &errorSessionConfigsChanged{}
 		}
 		m.mutex.Unlock()
